@@ -2560,6 +2560,26 @@ pub proof fn lemma_line(r0: Seq<Token>, l: int)
         if no_newline(r0, l, l + n) { assert forall|j: int| 0 <= j < n implies (#[trigger] r0.skip(l)[j]).kind != TokenKind::Newline by { assert(r0.skip(l)[j] == r0[l + j]); } }
     }
 }
+/// C14, the `>>` mechanism, as two theorems over the contracts of next_block (full parser) and next_metadata_block
+/// (metadata-only scanner), for one and the same remaining token stream `s`:
+/// (1) the first `>>` line of the stream is either the block the full parser takes next, or lies wholly after everything that
+///     call consumed (so it is still the first `>>` line of what is left) — it is never skipped as blank and never swallowed
+///     by a step or paragraph;
+pub proof fn lemma_c14_first_meta(s: Seq<Token>, a: int, b: int, l: int, k: int, e: int)
+    requires is_block(s, a, b, l), meta_entry_at(s, k, e)
+    ensures k == a || k >= l
+{
+    reveal(no_marker_inside);
+    if k < a { lemma_rng_at(s, 0, a, k); }
+    if b <= k < l { lemma_rng_at(s, b, l, k); }
+}
+/// (2) when it is that block, both parsers hand the same token slice to `metadata_entry`
+pub proof fn lemma_c14_same_slice(s: Seq<Token>, a: int, b: int, l: int, e: int)
+    requires is_block(s, a, b, l), meta_entry_at(s, a, e)
+    ensures s.subrange(a, b) == s.subrange(a, e)
+{
+    lemma_line_unique(s, a, b, e);
+}
 /// the bookkeeping of next_block adds up to the block predicate
 pub proof fn lemma_is_block(r0: Seq<Token>, ls: int, l0: int, end: int, l: int)
     requires 0 <= ls < end <= l <= r0.len(), all_blank(r0, 0, ls), all_blank(r0, end, l), !all_blank(r0, ls, end),
@@ -2663,7 +2683,7 @@ after `self.block.push(tok);`:
 @*/
 
 /*@ fn src/parser/mod.rs PullParser::next_block
-tags C03 C05 C17
+tags C03 C05 C14 C17
 ret r
 attr #[verifier::spinoff_prover]
 spec:
